@@ -159,3 +159,9 @@ def solver_structure(ctx):
     """day-level solvers: midnight fall-back to the precise solver, full series in the last Newton step (see rules/c05.py)"""
     from rules import c05
     c05.run(ctx, only_solver=True)
+
+
+def effect_inventory(ctx):
+    """no process-wide mutable state beyond the frozen list (any new cache / counter makes answers history dependent)"""
+    from rules import c10
+    c10.inventory(ctx)
